@@ -414,6 +414,14 @@ class Sched:
             truth = q.bool_outcome(body, bb, vals)
             if truth is not None:
                 return ('D', 'cmp', c[1], c[2], q.const_val(c[3]), truth)
+        if t['ty'] != 'bool' and c[0] == 'bin' and c[1] == 'BitAnd' and q.const_val(c[3]) is not None:
+            # `match flags & BIT { 0 => .., _ => .. }`: the flag test written as a value match
+            mask = q.const_val(c[3])
+            listed = sorted(x_ for x_, _ in t['targets'])
+            if vals == [0]:
+                return ('D', 'flag', c[2], mask, False)
+            if (vals == ['otherwise'] and listed == [0]) or (vals == [mask] and mask & (mask - 1) == 0):
+                return ('D', 'flag', c[2], mask, True)
         if t['ty'] != 'bool' and c[0] != 'discr':
             v = vals[0] if vals and vals != ['otherwise'] else 'other'
             return ('D', 'val', c, v, tuple(sorted(x_ for x_, _ in t['targets'])))
